@@ -16,22 +16,34 @@ def hasError (ds : List Diag) : Prop := ∃ d ∈ ds, d.kind = .error
 
 /-! ### the arities of generic types (what `check_container` of validation.rs indexes into) -/
 
-/-- an array has its element, a list at most one parameter, a map none or two -/
+/-- an array has its element, a list at most one parameter, a map none or two; and no node is
+    `Resolved` (the grammar actions never write that kind: it is validation's to assign) -/
 def tyArity (t : Ty) : Bool :=
   match t.kind with
   | .array => t.gens.length ≥ 1
   | .list => t.gens.length ≤ 1
   | .map => t.gens.length = 0 ∨ t.gens.length = 2
+  | .resolved _ _ => false
+  | _ => true
+
+/-- the kinds `simple_type` / the primitive alternatives of the grammar write on a leaf -/
+def leafKind : TypeKind → Bool
+  | .array => false
+  | .resolved _ _ => false
   | _ => true
 
 /-- every type node inside `t`, at any depth, has the arity of its kind -/
 def TyWF (t : Ty) : Prop := ∀ u ∈ Ty.walkOrder t, tyArity u = true
 
-theorem TyWF.leaf (n : String) (k : TypeKind) (s f : Range) (hk : k ≠ .array) : TyWF (.mk n k [] s f) := by
+theorem TyWF.leaf (n : String) (k : TypeKind) (s f : Range) (hk : leafKind k = true) : TyWF (.mk n k [] s f) := by
   intro u hu
-  simp only [Ty.walkOrder, hk, if_false, Ty.walkOrderList, List.mem_cons, List.not_mem_nil, or_false] at hu
+  have hk' : k ≠ .array := by intro h; subst h; cases hk
+  simp only [Ty.walkOrder, hk', if_false, Ty.walkOrderList, List.mem_cons, List.not_mem_nil, or_false] at hu
   subst hu
-  cases k <;> simp_all [tyArity, Ty.kind, Ty.gens]
+  cases k with
+  | array => cases hk
+  | resolved a b => cases hk
+  | _ => simp [tyArity, Ty.kind, Ty.gens]
 
 theorem TyWF.array (n : String) (t : Ty) (s f : Range) (h : TyWF t) : TyWF (.mk n .array [t] s f) := by
   intro u hu
